@@ -14,6 +14,7 @@ package signature
 //@   property C04
 //@   assigns signedBox, signedTag, signedVer, signedBy, signCount, signedRes, signedVal
 //@   requires tagof(signer) != 0
+//@   leave sigOut = out
 //@   ensures one-signing-call-on-the-argument: signCount == old(signCount) + 1 && signedBox == valof(data) && signedTag == tagof(data) && signedBy == valof(signer) && signedVer == msgver
 //@   ensures nothing-on-error: err != nil ==> out == nil
 //@   ensures value-copied: err == nil ==> out != nil && sigOver(signedBy, signedTag, signedBox) == signedRes && out.SignatureValue.Text == xsig().SignatureValue && signedVal == xsig().SignatureValue
